@@ -254,12 +254,34 @@ def main_wrapper(prop, fn):
     a = ap.parse_args(sys.argv[2:])
     seed = a.seed if a.seed is not None else int(os.environ.get('VERIF_SEED', '1') or 1)
     tier = a.tier if a.tier in ('quick', 'thorough') else 'quick'
+    replay_key = None
+    if a.replay:
+        # a replay file names the failing event (key + driver line) and the seed/tier of the run that produced it; the workload
+        # is deterministic in (seed, tier), so replaying = re-running that workload on the current tree and looking for the same key
+        with open(a.replay) as f:
+            rp = json.load(f)
+        seed, tier, replay_key = int(rp['seed']), rp['tier'], rp['key']
+        print('REPLAY of %s (seed %d, tier %s): %s' % (replay_key, seed, tier, str(rp.get('what'))[:300]))
+        if isinstance(rp.get('replay'), dict) and rp['replay'].get('line'):
+            print('REPLAY driver line: %s' % str(rp['replay']['line'])[:500])
+        os.environ.setdefault('VERIF_OUT', os.path.join(VERIF, 'work', 'replay-out'))
     ctx = Ctx(prop, tier, seed)
     ctx.replay = a.replay
     try:
         rc = fn(ctx)
         if rc is None:
-            rc = finish(ctx)
+            if replay_key is not None:
+                hit = [v for v in ctx.violations if v['key'] == replay_key]
+                finish(ctx)
+                if hit:
+                    print('REPLAY: %s reproduced (%d events): %s' % (replay_key, hit[0]['count'], str(hit[0]['what'])[:400]))
+                    print('VIOLATION property=%s replay=%s' % (prop, a.replay))
+                    rc = 1
+                else:
+                    print('REPLAY: %s did not reproduce on the current tree' % replay_key)
+                    rc = 0
+            else:
+                rc = finish(ctx)
     except HarnessError as e:
         print('HARNESS: %s' % e)
         rc = 2
